@@ -183,11 +183,17 @@ def gen_malformed(r, keys, maxlen=60):
 
 
 # ------------------------------------------------------------------ flat schema cases
-KINDS = ["R", "I", "B", "S", "V", "N1", "N2", "N3", "K", "T3", "T4", "T2", "T5", "R!", "S!", "B!", "T3!", "U", "U", "L", "J", "W"]
+KINDS = ["R", "I", "B", "S", "V", "N1", "N2", "N3", "K", "T3", "T4", "T2", "T5", "R!", "S!", "B!", "T3!", "U", "U", "L", "J", "W", "Y3", "Y4"]
 
 
 def value_for(r, kind, good=True):
     kind = kind.rstrip("!")
+    if kind[0] == "Y":
+        k = r.randint(1, 3)
+        parts = [value_for(r, "T" + kind[1:], True) for _ in range(k)]
+        if good:
+            return r.choice([" ", "  ", "\t"]).join(parts)
+        return r.choice(["".join(parts) if k > 1 else parts[0] + "x", parts[0] + " " + value_for(r, "T" + kind[1:], False), "1 2 3", parts[0] + " ("])
     if kind[0] == "T":
         n = int(kind[1:])
         toks = [r.choice(NUMBER_TOKENS) for _ in range(n)]
